@@ -47,4 +47,5 @@ def register(PROPS):
             "a client that has not yet received any event has no ID to resume from (outside the property)",
         ],
         "corpus_also": [],
+        "replay_repeats": 20,
     }
